@@ -524,6 +524,8 @@ void ClipperOffset::DoGroupOffset(Group& group)
 			end_type_ = (group.join_type == JoinType::Round) ?
 			  EndType::Round :
 			  EndType::Square;
+		else
+			end_type_ = group.end_type; // don't inherit a previous path's substitute end type
 
 		BuildNormals(*path_in_it);
 		if (end_type_ == EndType::Polygon) OffsetPolygon(group, *path_in_it);
